@@ -1,6 +1,14 @@
 package main
 
-import "fmt"
+import (
+	"fmt"
+	"go/types"
+	"strings"
+
+	"golang.org/x/tools/go/ssa"
+)
+
+var devHooks = map[string]func(p *Prog, fnPat, untr string) int{}
 
 func runThorough(pr *propertyRunner, p *Prog, r *Report) {}
 
@@ -10,6 +18,63 @@ func devMore(p *Prog, mode, fnPat, untr string) int {
 		emitTarget(p, fnPat, parseIdx(untr))
 		return 0
 	}
+	if h, ok := devHooks[mode]; ok {
+		return h(p, fnPat, untr)
+	}
 	fmt.Println("unknown dev mode", mode)
 	return 2
+}
+
+func init() {
+	devHooks["maprange"] = func(p *Prog, fnPat, untr string) int {
+		e, err := newDetEngine(p)
+		if err != nil {
+			fmt.Println(err)
+			return 2
+		}
+		fmt.Println("allTypes", len(e.cg.allTypes))
+		for _, t := range e.cg.allTypes {
+			if strings.Contains(t.String(), "bn254.system") {
+				fmt.Println("  type", t)
+			}
+		}
+		for _, fn := range p.FuncsMatching(fnPat) {
+			for _, b := range fn.Blocks {
+				for _, ins := range b.Instrs {
+					if ci, ok := ins.(ssa.CallInstruction); ok && ci.Common().IsInvoke() {
+						n, ok := modIface(ci.Common().Value.Type())
+						fmt.Printf("  invoke %s type %T %v modIface=%v\n", ci.Common().Method.Name(), ci.Common().Value.Type(), ci.Common().Value.Type(), ok)
+						if ok {
+							iface := n.Underlying().(*types.Interface)
+							for _, t := range e.cg.allTypes {
+								if strings.Contains(t.String(), "bn254.system") {
+									fmt.Println("    implements", t, types.Implements(t, iface), types.MissingMethod)
+								}
+							}
+						}
+						break
+					}
+				}
+			}
+			for _, ml := range findMapLoops(fn) {
+				fmt.Println("loop", ml.ord, "header", ml.header, "body blocks", len(ml.body))
+				for _, b := range fn.Blocks {
+					if !ml.body[b] {
+						continue
+					}
+					for _, ins := range b.Instrs {
+						if ci, ok := ins.(ssa.CallInstruction); ok {
+							cs := e.cg.Callees(ci.Common())
+							fmt.Printf("  call %s -> %d callees", CalleeName(ci.Common()), len(cs))
+							for _, c := range cs {
+								fmt.Printf(" [%s eff=%v prim=%v]", FuncName(c), e.effect[c], e.prim[c])
+							}
+							fmt.Println()
+						}
+					}
+				}
+			}
+		}
+		return 0
+	}
 }
